@@ -40,6 +40,7 @@ type apiPool struct {
 	Notes  []string  `json:"notes"`
 	Enc    []encSpec `json:"enc"`
 	ChainN int       `json:"chainn"` // inputs >= ChainN are chains
+	Solo   []int     `json:"solo"`   // inputs used only in histories with themselves (one per file type, every message with every field)
 	Sib    []int     `json:"sib"`    // inputs that differ from another pool input in one definition byte
 }
 
@@ -233,6 +234,16 @@ func buildAPIPool(c *Ctx, p *Profile, sch *Schema, dir string) *apiPool {
 		s.Data(1, []byte{1, 0})
 		add(s.Bytes(), fmt.Sprintf("file type %d without any list message", ft))
 	}
+	// per file type NewFile accepts: every message of the profile three times, each
+	// with all its fields holding valid, non-monotonic values (a value derived
+	// from earlier ones - in this call or in an earlier one - shows in the second
+	// Decode of the same bytes). These inputs meet only themselves in histories.
+	for t := 0; t < 256; t++ {
+		if newFileErr(t) == nil {
+			ap.Solo = append(ap.Solo, ap.NDec)
+			add(allMessagesStream(p, byte(t)).Bytes(), fmt.Sprintf("solo: file type %d, every message x3 with all fields valid", t))
+		}
+	}
 	ap.ChainN = ap.NDec
 	add(append(ap.input(1), ap.input(3)...), "chain: Activity + Settings")
 	add(append(append(ap.input(0), ap.input(6)...), ap.input(0)...), "chain: A + compressed-first + A")
@@ -264,6 +275,63 @@ func buildAPIPool(c *Ctx, p *Profile, sch *Schema, dir string) *apiPool {
 	// an Encode that fails part-way: later calls must not see anything of it
 	ap.Enc = append(ap.Enc, encSpec{Seed: c.Seed*1000 + 777, FT: 4, K: 1, Bad: true})
 	return ap
+}
+
+func (ap *apiPool) isSolo(i int) bool {
+	for _, s := range ap.Solo {
+		if s == i {
+			return true
+		}
+	}
+	return false
+}
+
+// allMessagesStream: a file of type ft carrying every profile message (but
+// file_id) three times with all fields: scalars once, arrays in two
+// elements, strings "ab" + digit; low byte 1..100 varying non-monotonically
+// over the three records, the other bytes zero (valid for every base type).
+func allMessagesStream(p *Profile, ft byte) *Stream {
+	s := newStream(14, true)
+	s.FileId(0, 0, ft)
+	for mi := range p.Msgs {
+		pm := &p.Msgs[mi]
+		if pm.M == 0 || len(pm.Fields) == 0 {
+			continue
+		}
+		var fd []FieldDef
+		for _, f := range pm.Fields {
+			n := baseSize[f.B]
+			if f.B == 7 {
+				n = 4
+			} else if f.A != 0 {
+				n *= 2
+			}
+			fd = append(fd, FieldDef{byte(f.N), byte(n), baseByte[f.B]})
+		}
+		s.Def(1, 0, uint16(pm.M), fd, nil)
+		for r := 0; r < 3; r++ {
+			var pl []byte
+			for _, f := range pm.Fields {
+				v := byte(1 + ([3]int{50, 90, 20}[r]+f.N*3)%100)
+				if f.B == 7 {
+					pl = append(pl, 'a', 'b', '0'+v%10, 0)
+					continue
+				}
+				bs := baseSize[f.B]
+				k := 1
+				if f.A != 0 {
+					k = 2
+				}
+				for e := 0; e < k; e++ {
+					el := make([]byte, bs)
+					el[0] = v + byte(e)
+					pl = append(pl, el...)
+				}
+			}
+			s.Data(1, pl)
+		}
+	}
+	return s
 }
 
 func digest(v interface{}) string {
@@ -514,8 +582,12 @@ func runC08(c *Ctx) {
 	hist1 := apiModel(c, "MC_Procs1", c.pick(3, 4), true)
 
 	// all pool calls
-	var allCalls []histCall
+	var allCalls, soloCalls []histCall
 	for i := 0; i < ap.NDec; i++ {
+		if ap.isSolo(i) {
+			soloCalls = append(soloCalls, histCall{API: "decode", Idx: i}, histCall{API: "chained", Idx: i})
+			continue
+		}
 		if i >= ap.ChainN {
 			allCalls = append(allCalls, histCall{API: "chained", Idx: i})
 		} else {
@@ -531,7 +603,7 @@ func runC08(c *Ctx) {
 	var mu sync.Mutex
 	var wg sync.WaitGroup
 	sem := make(chan struct{}, 16)
-	for _, h := range allCalls {
+	for _, h := range append(append([]histCall{}, allCalls...), soloCalls...) {
 		wg.Add(1)
 		sem <- struct{}{}
 		go func(h histCall) {
@@ -548,6 +620,14 @@ func runC08(c *Ctx) {
 		}(h)
 	}
 	wg.Wait()
+	// the solo inputs are only worth something when they are accepted
+	soloOK := 0
+	for _, i := range ap.Solo {
+		if m, ok := pureFull[histCall{API: "decode", Idx: i}.key()].(map[string]interface{}); ok && num(m["err"]) == 0 && num(m["panic"]) == 0 {
+			soloOK++
+		}
+	}
+	c.Cov["solo_inputs_accepted_by_decode"] = soloOK
 	// encode determinism inside one call
 	for k, v := range pureFull {
 		if m, ok := v.(map[string]interface{}); ok {
@@ -578,6 +658,10 @@ func runC08(c *Ctx) {
 				histories = append(histories, []histCall{a, b})
 			}
 		}
+	}
+	for _, i := range ap.Solo {
+		d, ch := histCall{API: "decode", Idx: i}, histCall{API: "chained", Idx: i}
+		histories = append(histories, []histCall{d, d}, []histCall{ch, ch}, []histCall{d, ch, d})
 	}
 	npairs := len(histories) - ntlc
 	rng := newRng(c.Seed)
@@ -656,7 +740,8 @@ func runC08(c *Ctx) {
 		c.report(sig, fmt.Sprintf("the result of %s depends on the call history: after %v it differs from the same call made first in a fresh process", prefix[ei].key(), names[:len(names)-1]),
 			map[string]interface{}{"history": prefix, "pool_notes": ap.Notes, "fresh": pureFull[prefix[ei].key()], "fresh_digest": pure[prefix[ei].key()], "after_history": full[ei]})
 	}
-	c.Cov["pool_calls"] = len(allCalls)
+	c.Cov["pool_calls"] = len(allCalls) + len(soloCalls)
+	c.Cov["solo_inputs_one_per_file_type"] = len(ap.Solo)
 	c.Cov["histories_from_tlc"] = ntlc
 	c.Cov["histories_ordered_pairs"] = npairs
 	c.Cov["histories_random"] = len(histories) - ntlc - npairs
